@@ -179,20 +179,26 @@ func (valdec mapDecoder) decodeObjectAsMap(dec *Decoder, p interface{}, tag byte
 	count := len(structInfo.names)
 	valdec.t.UnsafeSet(mp, valdec.t.UnsafeMakeMap(count))
 	dec.AddReference(p)
-	if fields := structInfo.fields; fields != nil {
-		for _, name := range structInfo.names {
-			field := fields[name]
+	// the key slot of a map with interface{} keys holds an interface, not a string
+	keyPtr := func(name string) unsafe.Pointer {
+		if valdec.kt.Kind() == reflect.Interface {
+			var key interface{} = name
+			return unsafe.Pointer(&key)
+		}
+		return reflect2.PtrOf(name)
+	}
+	fields := structInfo.fields
+	for _, name := range structInfo.names {
+		var v interface{}
+		if field, ok := fields[name]; ok {
 			vp := field.Type.UnsafeNew()
 			field.Decode(dec, field.Type.Type1(), vp)
-			v := field.Type.UnsafeIndirect(vp)
-			valdec.t.UnsafeSetIndex(mp, reflect2.PtrOf(name), reflect2.PtrOf(&v))
-		}
-	} else {
-		for _, name := range structInfo.names {
-			var v interface{}
+			v = field.Type.UnsafeIndirect(vp)
+		} else {
+			// no registered struct, or the class has a field the struct lacks
 			dec.decodeInterface(dec.NextByte(), &v)
-			valdec.t.UnsafeSetIndex(mp, reflect2.PtrOf(name), reflect2.PtrOf(&v))
 		}
+		valdec.t.UnsafeSetIndex(mp, keyPtr(name), reflect2.PtrOf(&v))
 	}
 	dec.Skip()
 }
